@@ -172,7 +172,9 @@ def gen_entity(rng, vmf, features, vis_ids: List[int], group_ids: List[int], bru
     from srctools.vmf import Entity, FixupValue
     keys: Dict[str, Any] = {}
     for _ in range(rng.randint(0, 6)):
-        k = rng.choice(('origin', 'angles', 'model', 'message', 'spawnflags', 'file', 'replace_mode', 'ReplaceWith', 'replace', ident(rng), hostile(rng, 8, newlines=False, p=0.5)))
+        # (the second row: keys that are spelled like the BLOCKS of an entity - "solid" "6" is what every prop_static carries)
+        k = rng.choice(('origin', 'angles', 'model', 'message', 'spawnflags', 'file', 'replace_mode', 'ReplaceWith', 'replace', ident(rng), hostile(rng, 8, newlines=False, p=0.5),
+                        'solid', 'editor', 'connections', 'hidden', 'group', 'side', 'world', 'entity', 'Solid'))
         k = k.replace('\r', '').replace('\n', '') or 'k'
         if k.casefold() == 'id' or (k.casefold().startswith('replace') and k[-2:].isdigit()) or k.casefold() in ('classname', 'targetname', 'nodeid'):
             k = 'key_' + k
